@@ -149,8 +149,22 @@ func c14Body(c *ev.Ctx) {
 	if !quick {
 		plans = []plan{{0, false, false, []int{0}}, {0, true, true, all}, {1, true, true, all}, {2, false, true, all}, {-1, false, true, []int{0, 1, 2, 3}}, {2, true, true, []int{0, 1}}, {-1, false, true, []int{4, 5, 6}}}
 	}
+	runsLeft := 0
+	for _, pl := range plans {
+		runsLeft += len(pl.scen)
+	}
 	for _, pl := range plans {
 		for _, si := range pl.scen {
+			// no single (plan, scenario) may eat the whole budget: each gets at most three times its even
+			// share of what is left (on a tree whose extra goroutines make one search explode, the other
+			// searches still run)
+			dl := c.Deadline
+			if rem := time.Until(c.Deadline); rem > 0 && runsLeft > 0 {
+				if d := time.Now().Add(3 * rem / time.Duration(runsLeft)); d.Before(dl) {
+					dl = d
+				}
+			}
+			runsLeft--
 			sc := scenarios[si]
 			sc.Fine = pl.fine
 			name := fmt.Sprintf("clients=%v cycles=%d", sc.Clients, sc.Cycles)
@@ -164,7 +178,7 @@ func c14Body(c *ev.Ctx) {
 			}
 			var mu sync.Mutex
 			nfail := 0
-			e := &vsched.Explorer{Bound: pl.bound, Fine: pl.fine, UseKeys: pl.keys, MaxSteps: 20000, Workers: workers(), Deadline: c.Deadline, NewRun: c14Run(&sc), AfterRun: vhttp.Uninstall}
+			e := &vsched.Explorer{Bound: pl.bound, Fine: pl.fine, UseKeys: pl.keys, MaxSteps: 20000, Workers: workers(), Deadline: dl, NewRun: c14Run(&sc), AfterRun: vhttp.Uninstall}
 			e.OnFailure = func(choices []int, s *vsched.Sched, f *vsched.Failure) {
 				if f.Kind == "replay-divergence" {
 					c.HarnessError("replay divergence: %s", f.Msg)
